@@ -15,6 +15,7 @@ import enum
 import io
 import json
 import random
+import types
 import sys
 import threading
 import time
@@ -328,6 +329,11 @@ def decode_request(req: httpx.Request) -> Dict[str, Any]:
     return out
 
 
+def header_dict(h) -> Dict[str, str]:
+    """Caller headers in any form httpx accepts -> {lower-case name: value}."""
+    return {k.lower(): v for k, v in httpx.Headers(h or {}).items()}
+
+
 def judge_request(dec: Dict[str, Any], query: str, opname: Optional[str], exp_vars: Any, exp_files, kwargs: Dict[str, Any]):
     """-> list of (clause, detail)"""
     bad = []
@@ -336,7 +342,7 @@ def judge_request(dec: Dict[str, Any], query: str, opname: Optional[str], exp_va
     want_url = URL + ("?" + "&".join("%s=%s" % kv for kv in kwargs["params"].items()) if kwargs.get("params") else "")
     if dec["url"] != want_url:
         bad.append(("url", "%r != %r" % (dec["url"], want_url)))
-    caller_headers = {k.lower(): v for k, v in (kwargs.get("headers") or {}).items()}
+    caller_headers = header_dict(kwargs.get("headers"))
     for k, v in caller_headers.items():
         if k == "content-type":
             continue
@@ -467,6 +473,12 @@ async def one_case(r: core.Run, deps, rng_seed: int, idx: int):
         exp_files = tg.expected_files()
         if kwargs is None:
             kwargs = kwargs_variants(rng, bool(exp_files))
+            if "headers" in kwargs:
+                # every form httpx documents for headers: a dict, a sequence of (name, value) pairs, an httpx.Headers object, a read-only Mapping
+                form = idx % 5
+                h = kwargs["headers"]
+                kwargs["headers"] = [h, list(h.items()), httpx.Headers(h), types.MappingProxyType(dict(h)), {k_.lower(): v_ for k_, v_ in h.items()}][form]
+                feats.add("kwargs.headers.form." + ["dict", "pairs", "httpx.Headers", "mapping-proxy", "lower-case-names"][form])
         captured: List[httpx.Request] = []
 
         def handler(request: httpx.Request):
@@ -511,7 +523,7 @@ async def one_case(r: core.Run, deps, rng_seed: int, idx: int):
         if exp_files:
             r.count("uploads_distinct", len(exp_files))
             r.count("upload_positions", sum(len(f[0]) for f in exp_files))
-    undecodable_upload = bool(exp_files) and any(k.lower() == "content-type" for k in (kwargs.get("headers") or {}))
+    undecodable_upload = bool(exp_files) and "content-type" in header_dict(kwargs.get("headers"))
     # (under the listed finding the body keeps each client's random boundary and cannot be decoded: nothing to compare across clients)
     if not undecodable_upload and (len({normalise(d) for d in decs.values()}) > 1 or len({repr(o) for o in outcomes.values()}) > 1):
         r.add_violation(core.Violation(PROP, "clients-agree", "requests/outcomes differ across clients: %r" % ({k: normalise(v)[:300] for k, v in decs.items()},),
